@@ -226,6 +226,14 @@ CHECK_DEADLOCK FALSE
         raise Inconclusive("trace validation '%s' did not run to the end of the trace:\n%s" % (name, res["out"][-4000:]))
     v = verdicts[0]
     v["tlc"] = {"states": res["states"], "distinct": res["distinct"], "wall": res["wall"]}
+    # drift clauses (the code differs from an implementation-shaped model) are reported, never a verdict
+    v["drift"] = [f for f in v["fails"] if "gc.impl" in f["clauses"]]
+    keep = []
+    for f in v["fails"]:
+        c = [x for x in f["clauses"] if x != "gc.impl"]
+        if c:
+            keep.append(dict(f, clauses=c))
+    v["fails"] = keep
     return v
 
 
